@@ -3,7 +3,8 @@ exec (so that the metaclass, annotation handling and frame inspection run as for
 emission as Gallina `classdef` terms, reification of instances.
 
 Class AST: {"name", "base": None|name, "immutable": bool, "fields": [{"name","field","immutable","default"}],
-            "required": None|[names], "additional": None|bool, "ignore_none": bool, "hook": None|["le",a,b]|["set",a]}
+            "required": None|[names], "additional": None|bool, "ignore_none": bool, "hook": None|["le",a,b]|["set",a],
+            "undefined": bool (optional: _enable_undefined_value)}
 """
 from harness import coqemit as E
 from harness import fieldgen as G
@@ -48,6 +49,8 @@ def class_src(c):
         lines.append("    _additional_properties = %r" % c["additional"])
     if c.get("ignore_none"):
         lines.append("    _ignore_none = True")
+    if c.get("undefined"):
+        lines.append("    _enable_undefined_value = True")
     h = c.get("hook")
     if h:
         lines.append("    def __validate__(self):")
